@@ -121,10 +121,26 @@ func iJSONDecode(in *Interp, fn *ssa.Function, a []Value) Value {
 	if r.T != nil {
 		if m := in.L.prog.LookupMethod(r.T, nil, "VerifDoc"); m != nil {
 			doc := in.call(m, []Value{r.V}).(Slice)
-			return in.jsonUnmarshal(doc, tgt)
+			return in.decodeResult(in.jsonUnmarshal(doc, tgt), doc)
 		}
 	}
 	return in.jsonUnmarshal(Slice{Seq: &SeqObj{T: in.freshStr("body"), Len: mkBV(64, 1)}}, tgt)
+}
+
+// decodeResult: Decoder.Decode on an empty (or whitespace-only) stream returns exactly io.EOF; other undecodable
+// documents return some other error. Both are outcomes of "the body is not a JSON document".
+func (in *Interp) decodeResult(err Value, doc Slice) Value {
+	if isNilValue(err) {
+		return err
+	}
+	if doc.Seq != nil && doc.Seq.Blob != nil {
+		return err // a structured document is never empty
+	}
+	if in.branch(in.freshBool("body.is.empty")) {
+		g := in.L.prog.ImportedPackage("io").Var("EOF")
+		return copyVal(*in.globalAddr(g))
+	}
+	return err
 }
 
 // ---------- json kinds ----------
